@@ -135,6 +135,64 @@ fn cold_side_job(op: Op2, form: Form, cold_port: usize, script_len: usize, len: 
   })
 }
 
+/// both inputs hot `create` sources, the output observed by a subscriber that
+/// reports finished after `k` notifications: the operator may stop early, but
+/// the terminal its definition prescribes must still be handed on
+fn sated_timeline_job(op: Op2, form: Form, k: usize, len: usize) -> Job {
+  use rxrust::prelude::*;
+  let pipe = Pipe::S(Src::Raw(0)).o2(op, Pipe::S(Src::Raw(1)));
+  Job::new(format!("sated-after-{k} {} L{len} {}", form_name(form), pipe.show()), move |ch, obs| {
+    let mut r = Run::prepare(2, form);
+    let o = Sated { probe: r.probe.clone(), k };
+    match form {
+      Form::Local => r.sub = Sub::L(build_local(&pipe, &r.cx).actual_subscribe(o)),
+      Form::Threads => r.sub = Sub::T(build_threads(&pipe, &r.cx).actual_subscribe(o)),
+    }
+    let mut tl: Vec<Ev> = vec![];
+    for _ in 0..len {
+      let c = ch.choose(2 * ALPHA4);
+      let (port, ev) = (c / ALPHA4, port_event(c / ALPHA4, c % ALPHA4));
+      ch.label(|| format!("in{port} <- {ev:?}"));
+      r.emit(port, &ev);
+      tl.push((port, ev));
+      obs.checks += 1;
+      let got = r.probe.seq();
+      match model::op2(op, &tl) {
+        None => obs.unspecified += 1,
+        Some(exp) => {
+          let prefix = got.items.len() <= exp.items.len() && exp.items[..got.items.len()] == got.items[..];
+          let enough = got.items.len() >= k.min(exp.items.len()) || (exp.t.is_none() && exp.may_complete && got.t == T::C);
+          let term = match exp.t {
+            Some(t) => got.t == t,
+            None => match got.t {
+              T::Open => !exp.must_complete,
+              T::C => exp.may_complete,
+              T::Err(_) => false,
+            },
+          };
+          if !(prefix && enough && term && r.probe.grammar_ok()) {
+            obs.fail(
+              format!("c04:{}:{}:to-finished-observer", op.name(), form_name(form)),
+              format!(
+                "{} on [{}] observed by a subscriber that reports finished after {k} notifications: definition gives items {:?} terminal {:?}, delivered [{}]",
+                pipe.show(),
+                tl.iter().map(|(p, n)| format!("{}{n:?}", if *p == 0 { 'a' } else { 'b' })).collect::<Vec<_>>().join(" "),
+                exp.items,
+                exp.t,
+                fmt_notes(&r.probe.notes())
+              ),
+            );
+            break;
+          }
+        }
+      }
+    }
+    obs.delivered = r.probe.len() as u64;
+    obs.note_outcome(&r.probe.notes());
+    obs.log(|| format!("probe: [{}]", fmt_notes(&r.probe.notes())));
+  })
+}
+
 pub fn plan(tier: Tier) -> Plan {
   let (len, slen, hlen) = match tier {
     Tier::Quick => (6, 3, 4),
@@ -147,6 +205,9 @@ pub fn plan(tier: Tier) -> Plan {
       for cold_port in [0, 1] {
         jobs.push(cold_side_job(op, form, cold_port, slen, hlen));
       }
+      for k in 0..3 {
+        jobs.push(sated_timeline_job(op, form, k, len - 1));
+      }
     }
   }
   Plan {
@@ -155,7 +216,7 @@ pub fn plan(tier: Tier) -> Plan {
       prop: "C04".into(),
       tier: tier_name(tier),
       engine: "E1 opseq".into(),
-      rule: "for each of merge, zip, combine_latest, with_latest_from, take_until, skip_until, sample, buffer(notifier) in local and _threads form: every merged timeline up to the length bound over {next, next', complete, error} per input (events after a terminal included), and every cold synchronous script on either side followed by every hot history on the other; the probe trace is compared with the operator's reference function after every event; non-trivial = at least one notification reached the probe".into(),
+      rule: "for each of merge, zip, combine_latest, with_latest_from, take_until, skip_until, sample, buffer(notifier) in local and _threads form: every merged timeline up to the length bound over {next, next', complete, error} per input (events after a terminal included), and every cold synchronous script on either side followed by every hot history on the other; the probe trace is compared with the operator's reference function after every event; the same timelines on hot create() inputs observed by a subscriber that reports itself finished after 0-2 notifications (a prefix of the prescribed items, then the prescribed terminal); non-trivial = at least one notification reached the probe".into(),
       bounds: json!({"timeline_len": len, "cold_script_len": slen, "hot_len_after_cold": hlen, "forms": 2, "operators": 8}),
       assumptions: vec![
         "completion time of zip/combine_latest is only constrained (not before one input completed, present once both completed)".into(),
